@@ -27,6 +27,15 @@ pub fn top_level_shapes(s: &StateTreeSkeleton<StateType>) -> Vec<String> {
     }
 }
 
+/// Leaf tokens of a shape string ("D16", "M1", "F2", ...).
+pub fn leaf_tokens(shape: &str) -> std::collections::BTreeSet<String> {
+    shape
+        .split(|c: char| c == '[' || c == ']' || c == ',')
+        .filter(|t| !t.is_empty())
+        .map(|t| t.to_string())
+        .collect()
+}
+
 /// LCS length over equal shapes, optionally forbidding one pair.
 pub fn lcs_len(a: &[String], b: &[String], forbid: Option<(usize, usize)>) -> usize {
     let (n, m) = (a.len(), b.len());
